@@ -6,8 +6,12 @@ Import ListNotations.
 Open Scope Z_scope.
 Strategy opaque [enc_field search_table search_list].
 
-Definition wf_op (o : op) : Prop :=
-  match o with OWrite f => wf_f f | OSetMax v => 0 <= v | OEnd => True end.
+Lemma wf_field_b_f f : wf_field_b f = true -> wf_f f.
+Proof.
+  unfold wf_field_b, wf_f. intros H. apply andb_true_iff in H. destruct H as [H H4].
+  apply andb_true_iff in H. destruct H as [H H3]. apply andb_true_iff in H. destruct H as [H1 H2].
+  apply Z.ltb_lt in H3. apply Z.ltb_lt in H4. auto.
+Qed.
 
 Lemma enc_write_some e f : tab_ok (edt e) -> exists e' b, enc_write e f = Some (e', b).
 Proof.
@@ -41,7 +45,7 @@ Hypothesis Hhd : hd_ok hd.
 Variable L : Z.
 Hypothesis HL : 0 <= L <= uint32_max.
 
-Lemma block_ok_record e t blk cur : sim L e t -> block_ok L cur (block_record blk cur 0 e (mkD t [])) = true.
+Lemma block_ok_record e t blk cur : sim L e t -> block_ok L cur (block_record blk cur 0 e (mkD t [] true)) = true.
 Proof.
   intros [Hokt [Hoke [Hal [Hlim [HmL [Hbig [HtL _]]]]]]].
   unfold block_record, block_ok. rewrite val_fields_roundtrip, fields_eqb_refl. cbn [ddt].
@@ -51,26 +55,35 @@ Proof.
   repeat (apply andb_true_iff; split); try reflexivity; lia.
 Qed.
 
-Lemma run_ops_ok : forall ops e t0 blk cur t out,
-  Forall wf_op ops -> Dec hd t0 blk cur t -> sim L e t ->
-  exists res, run_ops hd ops e (mkD t0 []) blk out = Some (rev out ++ res)
+Definition started_of (cur : list field) : bool := match cur with [] => false | _ => true end.
+
+Lemma run_ops_ok : forall ops e t0 blk cur ff t out,
+  wf_ops_b ops (started_of cur) = true -> Dec hd true t0 blk cur ff t -> sim L e t ->
+  (epending e = true -> cur = []) ->
+  exists res, run_ops hd ops e (mkD t0 [] true) blk out = Some (rev out ++ res)
               /\ blocks_ok L (expected_blocks ops cur) res = true.
 Proof.
-  induction ops as [|o ops IH]; intros e t0 blk cur t out Hwf Hdec Hsim.
+  induction ops as [|o ops IH]; intros e t0 blk cur ff t out Hwf Hdec Hsim Hpc.
   - exists []. split; [cbn [run_ops]; rewrite app_nil_r; reflexivity|reflexivity].
-  - inversion Hwf as [|? ? Ho Hwf']; subst. destruct o as [f|v|].
-    + pose proof Hsim as [_ [Hoke _]]. destruct (enc_write_some e f Hoke) as [e' [b Hw]].
-      destruct (sim_write hd Hhd L e t f e' b HL Hsim Ho Hw) as [t' [Hd' Hsim']].
+  - pose proof (Dec_first hd _ _ _ _ _ _ Hdec) as Hff. destruct o as [f|v|]; cbn [wf_ops_b] in Hwf.
+    + apply andb_true_iff in Hwf. destruct Hwf as [Hf Hwf']. apply wf_field_b_f in Hf.
+      pose proof Hsim as [_ [Hoke _]]. destruct (enc_write_some e f Hoke) as [e' [b Hw]].
+      assert (epending e = true -> ff = true) as Hpf by (intros Hp; rewrite (Hpc Hp) in Hff; exact Hff).
+      destruct (sim_write hd Hhd L e t f e' b HL Hsim Hf Hw ff Hpf) as [t' [Hd' [Hsim' Hpen']]].
       cbn [run_ops expected_blocks]. rewrite Hw.
-      apply (IH e' t0 (blk ++ b) (cur ++ [f]) t' out Hwf'); [|exact Hsim'].
-      eapply Dec_app; eassumption.
-    + destruct (sim_set_max L e t v HL Hsim Ho) as [e' [Hs Hsim']].
+      apply (IH e' t0 (blk ++ b) (cur ++ [f]) false t' out); [|eapply Dec_app; eassumption|exact Hsim'|].
+      * destruct cur; exact Hwf'.
+      * intros Hp. congruence.
+    + apply andb_true_iff in Hwf. destruct Hwf as [Hwf Hwf']. apply andb_true_iff in Hwf. destruct Hwf as [Hv Hst].
+      assert (cur = []) as -> by (destruct cur; [reflexivity|discriminate Hst]).
+      destruct (sim_set_max L e t v HL Hsim ltac:(lia)) as [e' [Hs Hsim']].
       cbn [run_ops expected_blocks]. rewrite Hs.
-      apply (IH e' t0 blk cur t out Hwf' Hdec Hsim').
-    + cbn [run_ops expected_blocks]. rewrite (Dec_run hd _ _ _ _ Hdec).
+      apply (IH e' t0 blk [] ff t out Hwf' Hdec Hsim'). reflexivity.
+    + cbn [run_ops expected_blocks]. rewrite (Dec_run hd _ _ _ _ _ _ Hdec).
       change (0 =? ST_PANIC) with false. cbv iota.
-      destruct (IH e t [] [] t (block_record blk cur 0 e (mkD t []) :: out) Hwf' (Dec_nil hd t) Hsim) as [res [Hr Hb]].
-      exists (block_record blk cur 0 e (mkD t []) :: res). split.
+      assert (epending e = true -> @nil field = []) as Hpc' by reflexivity.
+      destruct (IH e t [] [] true t (block_record blk cur 0 e (mkD t [] true) :: out) Hwf (Dec_nil hd true t) Hsim Hpc') as [res [Hr Hb]].
+      exists (block_record blk cur 0 e (mkD t [] true) :: res). split.
       * rewrite Hr. cbn [rev]. rewrite <- app_assoc. reflexivity.
       * cbn [blocks_ok]. rewrite (block_ok_record e t blk cur Hsim), Hb. reflexivity.
 Qed.
@@ -87,12 +100,12 @@ Proof.
     unfold sim, tab_ok, tab_eq, empty_dt. cbn. repeat split; try lia; try discriminate.
 Qed.
 
-Theorem sequence_roundtrip ops : Forall wf_op ops ->
+Theorem sequence_roundtrip ops : wf_ops_b ops false = true ->
   exists e0 out, init_enc L = Some e0 /\ run_ops hd ops e0 (init_dec L) [] [] = Some out
                  /\ blocks_ok L (expected_blocks ops []) out = true.
 Proof.
   intros Hwf. destruct init_sim as [e0 [He Hsim]].
-  destruct (run_ops_ok ops e0 (ddt (init_dec L)) [] [] (ddt (init_dec L)) [] Hwf (Dec_nil hd _) Hsim) as [res [Hr Hb]].
+  destruct (run_ops_ok ops e0 (ddt (init_dec L)) [] [] true (ddt (init_dec L)) [] Hwf (Dec_nil hd true _) Hsim ltac:(reflexivity)) as [res [Hr Hb]].
   exists e0, res. split; [exact He|split; [exact Hr|exact Hb]].
 Qed.
 End Seq.
@@ -104,7 +117,7 @@ Proof. intros s Hs. apply huff_roundtrip. exact Hs. Qed.
 Definition run_C30_with (hd : bytes -> hres) (L : Z) (ops : list op) : option (list val) :=
   match init_enc L with Some e => run_ops hd ops e (init_dec L) [] [] | None => None end.
 Theorem sequence_roundtrip_closed hd L ops :
-  hd_ok hd -> 0 <= L <= uint32_max -> Forall wf_op ops ->
+  hd_ok hd -> 0 <= L <= uint32_max -> wf_ops_b ops false = true ->
   exists out, run_C30_with hd L ops = Some out /\ blocks_ok L (expected_blocks ops []) out = true.
 Proof.
   intros Hhd HL Hwf. destruct (sequence_roundtrip hd Hhd L HL ops Hwf) as [e0 [out [He [Hr Hb]]]].
@@ -112,16 +125,32 @@ Proof.
 Qed.
 
 Definition ex_ops : list op :=
-  [OWrite (mkF [58;109;101;116;104;111;100] [71;69;84] false);
+  [OSetMax 50; OWrite (mkF [58;109;101;116;104;111;100] [71;69;84] false);
    OWrite (mkF [120;45;97] [104;101;108;108;111;32;119;111;114;108;100] false);
-   OSetMax 50; OWrite (mkF [120;45;97] [104;101;108;108;111;32;119;111;114;108;100] false);
+   OWrite (mkF [120;45;97] [104;101;108;108;111;32;119;111;114;108;100] false);
    OWrite (mkF [99;111;111;107;105;101] [115;101;99;114;101;116] true); OEnd;
    OSetMax 0; OSetMax 4096; OWrite (mkF [120;45;97] [255;0;1] false); OEnd].
-Lemma ex_ops_wf : Forall wf_op ex_ops.
-Proof. repeat constructor; vm_compute; try reflexivity; intros; discriminate. Qed.
+Lemma ex_ops_wf : wf_ops_b ex_ops false = true.
+Proof. vm_compute. reflexivity. Qed.
 Lemma ex_ops_runs :
   match run_C30_with huff_decode 100 ex_ops with
   | Some out => blocks_ok 100 (expected_blocks ex_ops []) out = true /\ length out = 2%nat
   | None => False
   end.
+Proof. vm_compute. split; reflexivity. Qed.
+
+(* central theorem: the model satisfies the executable property on every well-formed input *)
+Theorem C30_central_lemma i : wf_C30 i = true -> kf_C30 i = 0 -> prop_C30 i (run_C30 i) = true.
+Proof.
+  unfold wf_C30, prop_C30, run_C30, run_C30_hd. intros Hwf _.
+  destruct (decode_input i) as [[L ops]|]; [|discriminate].
+  apply andb_true_iff in Hwf. destruct Hwf as [Hwf Hops]. apply andb_true_iff in Hwf. destruct Hwf as [HL1 HL2].
+  destruct (sequence_roundtrip_closed huff_decode_spec L ops hd_ok_spec ltac:(lia) Hops) as [out [Hr Hb]].
+  unfold run_C30_with in Hr. destruct (init_enc L); [|discriminate]. rewrite Hr. exact Hb.
+Qed.
+Definition ex_input : val :=
+  VL [VZ 100; VL [VL [VZ 1; VZ 50]; VL [VZ 0; VB [58;109;101;116;104;111;100]; VB [71;69;84]; VZ 0];
+                  VL [VZ 0; VB [120;45;97]; VB [104;101;108;108;111]; VZ 1]; VL [VZ 2];
+                  VL [VZ 1; VZ 0]; VL [VZ 1; VZ 4096]; VL [VZ 0; VB [120;45;97]; VB [255;0;1]; VZ 0]; VL [VZ 2]]].
+Lemma ex_input_wf : wf_C30 ex_input = true /\ agree_C30 ex_input (run_C30 ex_input) = true.
 Proof. vm_compute. split; reflexivity. Qed.
